@@ -33,6 +33,7 @@ def main():
     ap.add_argument("--no-suite", action="store_true")
     ap.add_argument("--seed", default="0")
     a = ap.parse_args()
+    a.src = os.path.abspath(a.src)
     checks = (a.checks or a.prop).split(",")
     wt = tempfile.mkdtemp(prefix="vseed.", dir="/tmp")
     meta = {"property": a.prop, "name": a.name}
